@@ -172,6 +172,24 @@ def iterwalkKids (wk : List (Str × Str)) : List XTree → NsMap → List Tok ×
     (a ++ b, m2)
 end
 
+mutual
+/-- the document `iterwalk` pretends to read: the same tree with the one invented declaration on
+every namespaced element -/
+def redecl (wk : List (Str × Str)) : XTree → NsMap → XTree × NsMap
+  | .node _ q a st t kids tl, m =>
+    let (d, m1) := match targetUri q with
+      | some uri => let (p, m') := loadPrefix wk uri m; ([(p.getD [], uri)], m')
+      | none => ([], m)
+    let (ks, m2) := redeclKids wk kids m1
+    (.node d q a st t ks tl, m2)
+def redeclKids (wk : List (Str × Str)) : List XTree → NsMap → List XTree × NsMap
+  | [], m => ([], m)
+  | k :: ks, m =>
+    let (a, m1) := redecl wk k m
+    let (b, m2) := redeclKids wk ks m1
+    (a :: b, m2)
+end
+
 /-! ### the handlers end to end -/
 
 /-- the kinds of source `XmlParser.parse/from_*` accepts -/
